@@ -91,6 +91,8 @@ pub struct Runner {
     pub ext_c06_compared: u64,
     /// Set while an interrupted request is being submitted again.
     pub resuming: bool,
+    /// Network faults counted at the last second chance.
+    pub net_faults_seen: u64,
 }
 
 pub fn load_csrs() -> Vec<Bytes> {
@@ -129,6 +131,7 @@ impl Runner {
             in_second_chance: false,
             ext_c06_compared: 0,
             resuming: false,
+            net_faults_seen: 0,
         }
     }
 
@@ -263,7 +266,10 @@ impl Runner {
         let views = self.views();
         let disk: Vec<bool> = self.world.insts.iter()
             .map(|i| i.cfg.disk).collect();
+        let down: Vec<usize> = self.world.insts.iter()
+            .filter(|i| !i.is_up()).map(|i| i.idx).collect();
         let ctx = GenCtx {
+            down: &down,
             model: &self.model,
             cfg: &self.gen_cfg,
             n_insts: self.world.insts.len(),
@@ -362,6 +368,53 @@ impl Runner {
     }
 
     fn exec_inner(&mut self, op: &Op) -> String {
+        // An instance that is down can neither be operated nor reached.
+        if !matches!(op, Op::Heal { .. })
+            && op.instances().iter().any(|i| {
+                *i < self.world.insts.len() && !self.world.inst(*i).is_up()
+            })
+        {
+            return "skip:down".into()
+        }
+        // Deleting a CA or removing a parent asks the parents for
+        // revocation "best effort"; with a parent unreachable that leaves
+        // its certificate behind (known finding under C08), so these two
+        // wait for the partition to heal.
+        if let Op::DeleteCa { inst, name } | Op::RemoveParent { inst, name, .. } = op {
+            let parent_down = self.model.ca(*inst, name).map(|ca| {
+                ca.parents.values().any(|p| {
+                    p.parent_inst < self.world.insts.len()
+                        && !self.world.inst(p.parent_inst).is_up()
+                })
+            }).unwrap_or(false);
+            if parent_down {
+                return "skip:parent_down".into()
+            }
+        }
+        if let Op::Partition { inst } = op {
+            if !self.world.inst(*inst).cfg.disk {
+                return "skip:memory".into()
+            }
+            self.world.insts[*inst].stop();
+            self.stat("partition");
+            return "down".into()
+        }
+        if let Op::Heal { inst } = op {
+            if self.world.inst(*inst).is_up() {
+                return "skip:up".into()
+            }
+            return match self.world.insts[*inst].start() {
+                Ok(()) => { self.stat("heal"); "up".into() }
+                Err(err) => {
+                    self.violation(
+                        "C08", "restart_failed",
+                        format!("instance does not start: {err}")
+                    );
+                    self.dead = Some(format!("restart failed: {err}"));
+                    format!("err:{err}")
+                }
+            }
+        }
         match op.clone() {
             Op::CreateCa { inst, name, parent_inst, parent, res } => {
                 if parent == "ta" && inst != parent_inst {
@@ -517,6 +570,7 @@ impl Runner {
                 };
                 Self::label(&res)
             }
+            Op::Partition { .. } | Op::Heal { .. } => "handled".into(),
             Op::RrdpSessionReset { inst } => {
                 let i = self.world.inst(inst);
                 i.enter();
@@ -1192,7 +1246,21 @@ impl Runner {
             for r in removed { updated.remove(r); }
             for a in added { updated.insert(*a); }
             if updated == existing {
-                predicted = Some(true);
+                // Nothing changes. Krill compares the stored provider list,
+                // in the order it was given, with the sorted result: it
+                // either sees no change (accepts) or goes on to the
+                // entitlement test, which refuses if the customer AS is no
+                // longer held. Both answers fit the statement (nothing is
+                // created; refusing does not "keep" the unbacked definition
+                // any more than accepting does), so that case is not judged.
+                predicted = if existing.is_empty()
+                    || held.contains_asn(Asn::from_u32(customer))
+                {
+                    Some(true)
+                } else {
+                    self.stat("c05.aspa_noop_unheld_not_judged");
+                    None
+                };
                 next = Some(if existing.is_empty() { None } else { Some(existing) });
             }
             else if updated.is_empty() {
@@ -1679,6 +1747,14 @@ impl Runner {
         if !self.world.inst(repo_inst).is_up() {
             return
         }
+        // While an instance is unreachable its CAs cannot follow what
+        // their parents do (and vice versa): the statement about the tree
+        // is evaluated once the partition has healed and background work
+        // has caught up.
+        if self.world.insts.iter().any(|i| !i.is_up()) {
+            self.stat("caught_up_during_partition");
+            return
+        }
         let excluded = self.excluded_dirs(repo_inst);
         if std::env::var("VERIF_DEBUG").is_ok() {
             eprintln!("step {} excluded dirs: {excluded:?}", self.step);
@@ -1703,8 +1779,16 @@ impl Runner {
                         | "router_key_mismatch" | "api_objects"
                 )
             });
-            if !found.is_empty() && eligible
-                && self.ext.detach_events + self.ext.entitlement_events > 0
+            // With message faults flowing, synchronisations may have failed
+            // several times in a row and wait for their next retry: the
+            // statement is about the state once the faults have stopped.
+            // That covers every kind of difference: a withdrawal that did
+            // not get through leaves an extra payload.
+            let net_faults = crate::net::faults_fired() > self.net_faults_seen;
+            if !found.is_empty()
+                && ((eligible
+                    && self.ext.detach_events + self.ext.entitlement_events > 0)
+                    || net_faults)
                 && !self.in_second_chance
             {
                 // A child was removed or suspended, a CA deleted, or an
@@ -1715,6 +1799,8 @@ impl Runner {
                 // unreachable. Apply that refresh, then judge.
                 self.stat("c01.second_chance");
                 self.in_second_chance = true;
+                self.net_faults_seen = crate::net::faults_fired();
+                let was_quiet = crate::net::set_quiet(true);
                 let mut ok = true;
                 for _ in 0..2 {
                     for idx in 0..self.world.insts.len() {
@@ -1731,6 +1817,7 @@ impl Runner {
                     }
                 }
                 self.in_second_chance = false;
+                crate::net::set_quiet(was_quiet);
                 if ok {
                     self.sync_model_after_pump();
                     let excluded = self.excluded_dirs(repo_inst);
